@@ -179,3 +179,39 @@ def _(self: Obj(SB21Helper, zero_filling=bool),
     ensures(result._header.count == (cmd_args["length"] if "length" in cmd_args else 4), label="whole-range-is-filled")
     ensures(result._header.data == replicated(cmd_args["pattern"]), label="pattern-as-written")
     pure()
+
+
+# ---- load statement with a memory option: the command carries the memory the statement names, for file data as well as for blobs ------------
+from spsdk.sbfile.sb2.commands import CmdLoad  # noqa: E402
+from spsdk.utils.misc import load_binary  # noqa: E402
+
+inline("spsdk.sbfile.sb2.commands:CmdLoad.__init__", "spsdk.sbfile.sb2.commands:CmdLoad.address", "spsdk.sbfile.sb2.commands:CmdLoad.flags",
+       "spsdk.sbfile.sb2.commands:get_device_id", "spsdk.sbfile.sb2.commands:get_group_id", "spsdk.sbfile.sb2.sb_21_helper:SB21Helper.get_mem_id")
+
+
+@contract("spsdk.sbfile.sb2.sb_21_helper:SB21Helper._load", replay=False)
+def _(self: Obj(SB21Helper, zero_filling=bool, search_paths=Const(None)),
+      cmd_args: Union[DictOf(address=U32, file=Const("app.bin")), DictOf(address=U32, file=Const("app.bin"), load_opt=OneOf(0x110, 0x120, 0x900, 9, 1))]) -> Opaque():
+    # memory id as written in the BD file: device id = bits 7..0, group = bits 11..8; the ROM reads the device id from bits 15..8 and the group from
+    # bits 7..4 of the LOAD command's flags
+    let(mem=cmd_args["load_opt"] if "load_opt" in cmd_args else 0)
+    ensures(typed(result, CmdLoad) and result._header.address == cmd_args["address"], label="one-load-command-at-the-address")
+    ensures(result._header.flags // 256 % 256 == mem % 256 and result._header.flags // 16 % 16 == mem // 256 % 16, label="memory-of-the-statement-in-the-command-flags")
+    ensures(result.mem_id == mem, label="memory-id-kept")
+    pure()
+    sample_with(lambda rnd: _sample_load(rnd))
+
+
+def _sample_load(rnd):
+    import os
+    import tempfile
+
+    d = tempfile.mkdtemp(prefix="vf-c19-")
+    with open(os.path.join(d, "app.bin"), "wb") as f:
+        f.write(bytes(rnd.getrandbits(8) for _ in range(rnd.choice([1, 16, 40]))))
+    h = object.__new__(SB21Helper)
+    h.zero_filling, h.search_paths = rnd.random() < 0.5, [d]
+    args = {"address": rnd.getrandbits(32), "file": "app.bin"}
+    if rnd.random() < 0.7:
+        args["load_opt"] = rnd.choice([0x110, 0x120, 0x900, 9, 1])
+    return {"self": h, "cmd_args": args}
